@@ -203,6 +203,18 @@ def growth_misc(rep):
     rep.clause('X.readme_entry_points', ms.Solver.__name__ == 'Solver' and mg.Generator.__name__ == 'Generator', key='entry points', own=False)
     text = '2 2 1\n1: 1 2\n2: (1 2)\n1: 0: 1: 1\n2: 0: 1: 1\n1: 0: 2: 2: 1 2\n'
     path = impl.write_text(text)
+    # msg / threads / timeLimit of solve() reach the back end object of every underlying solve
+    from . import observe
+    try:
+        S0 = ms.Solver(['-f', path, '-na', '3', '-maxsize', '1', '-gen', '2'])
+        rec0 = observe.Recorder(mode='standin', keep_sets=False)
+        with observe.observing(rec0, S0):
+            S0.solve(msg=False, timeLimit=7, threads=3)
+        seen = [(e.get('timeLimit'), e.get('threads'), bool(e.get('msg'))) for e in rec0.events]
+        rep.clause('X.solve_arguments_reach_back_end', bool(seen) and all(x == (7, 3, False) for x in seen), key='pass-through',
+                   what='solve(msg=False, timeLimit=7, threads=3): back end saw %s' % (seen,), own=False)
+    except BaseException as e:  # noqa
+        rep.clause('X.solve_arguments_reach_back_end', False, key='pass-through', what='%s: %s' % (type(e).__name__, e), own=False)
     cwd = os.getcwd()
     d = common.subdir('write-%d' % os.getpid())
     os.chdir(d)
